@@ -107,6 +107,16 @@ pub fn gen(prop: &str, tier: &str, seed: u64, out: &mut Vec<String>) {
                 }
             }
         }
+        "C12" => {
+            for &bs in &bss {
+                for size in hash_sizes(bs, if t { 300 } else { 12 }, if t { 2_000_000 } else { 120_000 }) {
+                    if t && r.chance(2, 3) {
+                        continue;
+                    }
+                    out.push(format!("flip {} {bs}", blob_desc(&mut r, size)));
+                }
+            }
+        }
         "C13" => {
             // all pairs (n <= m) over a size-class list, plus chains of appends
             for &bs in &[0u32, 1, 2, 4] {
@@ -251,6 +261,9 @@ pub fn gen(prop: &str, tier: &str, seed: u64, out: &mut Vec<String>) {
                                 cors.push(format!("o{pos}^{}", 1 + r.below(255)));
                             }
                         }
+                        // a data store that is shorter than the geometry (truncated / partial file)
+                        cors.push(format!("Td{}", r.below(size)));
+                        cors.push(format!("Td{}", size - 1));
                         // pairs of positions
                         if cors.len() >= 2 {
                             let two = format!("{},{}", cors[0], cors[1]);
